@@ -270,7 +270,20 @@ def execute_cancel_released(ex: Execution, backend: str, stack_kind: str = "in_p
 
         e.loop.create_task(boot())
         cancels: list[Any] = []
-        e.add_script([Action("cancel_handler", lambda: cancels.append(e.loop.create_task(stack.service.cancel_handler("h1"))))])
+
+        def do_cancel(with_timer: str = "") -> None:
+            if cancels:
+                return  # (one cancel request per execution)
+            if with_timer == "before" and e.loop.has_timers():
+                e.loop.fire_timers(0)
+            cancels.append(e.loop.create_task(stack.service.cancel_handler("h1")))
+            if with_timer == "after" and e.loop.has_timers():
+                e.loop.fire_timers(0)
+
+        e.add_script([Action("cancel_handler", do_cancel)])
+        # the cancel request and the idle-release timer in the same loop iteration, in both orders
+        e.add_script([Action("idle timer fires + cancel_handler (same loop iteration)", lambda: do_cancel("before"))])
+        e.add_script([Action("cancel_handler + idle timer fires (same loop iteration)", lambda: do_cancel("after"))])
         cfg.time_filter = lambda h: bool(e.loop.timer_deadlines()) and e.loop.timer_deadlines()[0] - e.loop.vt < 1000
         e.drive()
 
